@@ -26,14 +26,21 @@
 //   * tests/container/ring_buffer_test.cpp pins down that copy- and move-assignment INTO a default-constructed buffer
 //     is supported; assignment is therefore driven into every kind of target (also deallocate()d and moved-from ones).
 //
-// Reduction rules that keep the closure finite and small (they prune the driver's menu, not the oracles):
+// Reduction rules that keep the closure finite and small (they prune the driver's menu, not the oracles).
+// "small" = absent or <= 2 elements; "calm" = absent, or without storage / allocated, empty, both cursors 0 and
+// max_size_ 0 or the value it is constructed with in this configuration (M0 for a, Mb for b):
 //   R1 b grows by its own pushes to at most 2 elements; so does a while its max_size differs from M0
-//      ("foreign life": after allocate(m != M0) or after receiving b's state).
-//   R2 a buffer is pushed into only while the other one is trivial (absent, or empty with both cursors at 0),
-//      or while it holds < 2 elements and the other holds <= 2;
-//   R3 a buffer is popped only while the other one is trivial or it holds <= 2 elements itself.
-//   Constructors, assignments in both directions, clear, move_to, deallocate, allocate and destruction are always
-//   driven, so every reachable state of a is a copy/move source and an assignment target for every kind of b.
+//      (after allocate(m != M0) or after receiving b's state).
+//   R2 single-buffer operations (push, pop, clear, move_to, self-assignment, deallocate, allocate) on x are driven
+//      only while y is calm, or while both are small.  Otherwise x is frozen until y is destroyed or overwritten.
+//   R3 while y is not calm x is pushed into only at the back, while it holds < 2 elements and begin_ == 0
+//      (enough to make both buffers non-empty at the same time: assignment into a non-empty target).
+//   R4 a.allocate(m) with m not in {0, M0, Mb} only while b is absent, and b is not constructed while a's
+//      max_size_ is such an m (interplay of different capacities is what the Mb variants are for).
+//   R5 RingBuffer(M) / RingBuffer() construct x only while y is small.
+//   Copy/move construction, copy/move assignment in both directions and destruction are always driven, so every
+//   reachable state of a (every cursor offset, size and 0/1 content) is a copy source, a move source and an
+//   assignment target; assignment targets of the deallocate()d / "unknown" kind are met with <= 2 source elements.
 //   Assumption behind R2/R3: two RingBuffers share nothing but the (stateless) allocator.
 //
 // Oracles after every transition: contents == model through operator[] (values, and for Tracked the serial of the
@@ -44,8 +51,9 @@
 // a buffer with max_size > 0 has storage ("no-storage") and begin_/end_ <= mask_ ("cursor-out-of-range").
 #include <tlx/container/ring_buffer.hpp>
 
+#include <sys/resource.h>
+
 #include <deque>
-#include <optional>
 
 #include "c16_common.hpp"
 #include "hist/vhist.hpp"
@@ -72,7 +80,7 @@ struct RBSystem {
         long serial;  // -1: not yet read from the real object
     };
     struct Buf {
-        std::optional<RB> rb;
+        Holder<RB> rb;
         int kind = ABSENT;
         size_t max = 0;  // model max_size (meaningful while kind == ALLOC)
         std::deque<MElem> m;
@@ -86,8 +94,15 @@ struct RBSystem {
             led() = &ledger;
             bool q0 = quiet();
             if (tainted) quiet() = true;
+            if (!teardown_begin()) {
+                x[1].rb.leak();
+                x[0].rb.leak();
+                quiet() = q0;
+                return;
+            }
             x[1].rb.reset();
             x[0].rb.reset();
+            teardown_end();
             if (!ledger.live.empty()) report("element-leaked", vh::fmt("%zu element(s) still alive after both buffers were destroyed", ledger.live.size()));
             if (!ledger.blocks.empty()) report("allocator-leak", vh::fmt("%zu allocator block(s) never deallocated", ledger.blocks.size()));
             quiet() = q0;
@@ -95,7 +110,6 @@ struct RBSystem {
     };
 
     size_t M0, Mb;
-    bool first_fresh = true;
     RBSystem(size_t m0, size_t mb) : M0(m0), Mb(mb) {}
 
     std::string name() { return vh::fmt("RB<%s>/M%zu/b%zu", E::name(), M0, Mb); }
@@ -132,8 +146,21 @@ struct RBSystem {
     }
 
     // ---- driver
-    static bool trivial(const Buf& b) { return b.kind == ABSENT || (b.m.empty() && b.rb->begin_ == 0 && b.rb->end_ == 0); }
+    size_t home(int x) const { return x ? Mb : M0; }
+    // calm: absent, or a buffer that never held anything worth remembering: default-constructed / moved-from /
+    // freshly constructed, empty, both cursors at 0, max_size_ 0 or its home value
+    bool calm(const State& s, int x) const {
+        const Buf& b = s.x[x];
+        if (b.kind == ABSENT) return true;
+        if (b.kind != NODATA && b.kind != ALLOC) return false;
+        return b.m.empty() && b.rb->begin_ == 0 && b.rb->end_ == 0 && (b.rb->max_size_ == 0 || b.rb->max_size_ == home(x));
+    }
     static bool small(const Buf& b) { return b.kind == ABSENT || b.m.size() <= 2; }
+    // a lives a "realloc-foreign" life: its (possibly stale) max_size_ is none of 0, M0, Mb
+    bool foreign_a(const State& s) const {
+        const Buf& a = s.x[0];
+        return a.kind != ABSENT && a.rb->max_size_ != 0 && a.rb->max_size_ != M0 && a.rb->max_size_ != Mb;
+    }
 
     // coarse class of a transition for the crash guard (see c16_common.hpp)
     std::string cls(const State& s, uint32_t op) {
@@ -152,33 +179,48 @@ struct RBSystem {
 
     std::vector<uint32_t> ops(const State& s) {
         std::vector<uint32_t> r;
+        // single-buffer operations, simplest first
         for (int x = 0; x < 2; ++x) {
             const Buf &X = s.x[x], &Y = s.x[1 - x];
             if (X.kind == ABSENT) {
+                if (x == 1 && foreign_a(s)) continue;  // R4
+                if (!small(Y)) continue;               // R5
                 r.push_back(enc(K_CTOR, x));
                 r.push_back(enc(K_DEFCTOR, x));
                 continue;
             }
+            bool ycalm = calm(s, 1 - x);
+            if (!(ycalm || (small(X) && small(Y)))) continue;  // R2: X is frozen
             if (X.kind == ALLOC) {
                 size_t limit = X.max;
-                if (x == 1 || X.max != M0) limit = std::min<size_t>(limit, 2);                      // R1
-                bool push = X.m.size() < limit && (trivial(Y) || (X.m.size() < 2 && small(Y)));  // R2
-                if (push)
-                    for (int k = K_EMPLACE_BACK; k <= K_PUSH_FRONT_MOVE; ++k)
+                if (x == 1 || X.max != M0) limit = std::min<size_t>(limit, 2);  // R1
+                bool back_only = !ycalm && X.m.size() < 2 && X.rb->begin_ == 0;  // R3
+                if (X.m.size() < limit && (ycalm || back_only))
+                    for (int k = K_EMPLACE_BACK; k <= (ycalm ? K_PUSH_FRONT_MOVE : K_PUSH_BACK_MOVE); ++k)
                         for (int v = 0; v < 2; ++v) r.push_back(enc(k, x, v));
-                bool pop = !X.m.empty() && (trivial(Y) || X.m.size() <= 2);  // R3
-                if (pop) {
+                if (!X.m.empty()) {
                     r.push_back(enc(K_POP_FRONT, x));
                     r.push_back(enc(K_POP_BACK, x));
+                    r.push_back(enc(K_MOVE_TO, x));
                 }
                 r.push_back(enc(K_CLEAR, x));
-                if (!X.m.empty()) r.push_back(enc(K_MOVE_TO, x));
+            }
+            r.push_back(enc(K_SELF_COPYASSIGN, x));
+            r.push_back(enc(K_SELF_MOVEASSIGN, x));
+            r.push_back(enc(K_DEALLOCATE, x));
+            if (X.kind == NODATA || X.kind == DEALLOC) {
+                if (x == 0) {
+                    for (int m = 0; m <= 9; ++m)
+                        if (Y.kind == ABSENT || m == 0 || (size_t)m == M0 || (size_t)m == Mb) r.push_back(enc(K_ALLOCATE, x, m));  // R4
+                } else
+                    r.push_back(enc(K_ALLOCATE, x, (int)Mb));
             }
         }
+        // two-buffer operations and destruction: always driven
         for (int x = 0; x < 2; ++x) {
             const Buf &X = s.x[x], &Y = s.x[1 - x];
             if (X.kind == ABSENT) {
-                if (Y.kind != ABSENT) {
+                if (Y.kind != ABSENT && !(x == 1 && foreign_a(s))) {  // R4
                     r.push_back(enc(K_COPYCTOR, x));
                     r.push_back(enc(K_MOVECTOR, x));
                 }
@@ -187,15 +229,6 @@ struct RBSystem {
             if (Y.kind != ABSENT) {
                 r.push_back(enc(K_COPYASSIGN, x));
                 r.push_back(enc(K_MOVEASSIGN, x));
-            }
-            r.push_back(enc(K_SELF_COPYASSIGN, x));
-            r.push_back(enc(K_SELF_MOVEASSIGN, x));
-            r.push_back(enc(K_DEALLOCATE, x));
-            if (X.kind == NODATA || X.kind == DEALLOC) {
-                if (x == 0)
-                    for (int m = 0; m <= 9; ++m) r.push_back(enc(K_ALLOCATE, x, m));
-                else
-                    r.push_back(enc(K_ALLOCATE, x, (int)Mb));
             }
             r.push_back(enc(K_DESTROY, x));
         }
@@ -373,7 +406,8 @@ struct RBSystem {
             const char* xs = x ? "b" : "a";
             if (X.kind == ABSENT) continue;
             RB& rb = *X.rb;
-            if (X.kind == ALLOC) min_blocks++, max_blocks++;
+            // a buffer with max_size 0 can never be pushed into: whether it owns a (useless) block is not specified
+            if (X.kind == ALLOC) min_blocks += X.max > 0 ? 1 : 0, max_blocks++;
             if (X.kind == UNKNOWN) max_blocks++;
             if (X.kind == ALLOC && X.max > 0) {
                 if (rb.data_ == nullptr) {
@@ -383,8 +417,8 @@ struct RBSystem {
                 }
                 if (rb.begin_ > rb.mask_ || rb.end_ > rb.mask_) {
                     vh::fail_here("cursor-out-of-range",
-                                  vh::fmt("%s: begin_=%zu end_=%zu but mask_=%zu (capacity_=%zu, max_size_=%zu): the next push constructs data_[%zu] outside the array",
-                                          xs, (size_t)rb.begin_, (size_t)rb.end_, rb.mask_, rb.capacity_, rb.max_size_, (size_t)rb.end_));
+                                  vh::fmt("%s: begin_=%zu end_=%zu but mask_=%zu (capacity_=%zu, max_size_=%zu): the next push/front/back touches data_[] outside the array",
+                                          xs, (size_t)rb.begin_, (size_t)rb.end_, rb.mask_, rb.capacity_, rb.max_size_));
                     return;
                 }
             }
@@ -480,6 +514,7 @@ struct RBSystem {
                                 rb.begin_ == rb.mask_ ? " begin-at-last-slot" : ""));
         }
         vh::outcome(vh::fmt("kinds a=%c b=%c", kKindChar[s.x[0].kind], kKindChar[s.x[1].kind]));
+        if (vh::args().opt_int("dump", 0)) vh::note("STATE " + canon(s) + " <= " + vh::cur_replay());
         if (fail_count() != f0) s.tainted = true;
     }
 
@@ -546,11 +581,21 @@ static std::vector<Config> configs(bool thorough) {
     return r;
 }
 
+static double child_cpu_seconds() {
+    rusage ru;
+    getrusage(RUSAGE_CHILDREN, &ru);
+    return ru.ru_utime.tv_sec + ru.ru_stime.tv_sec + (ru.ru_utime.tv_usec + ru.ru_stime.tv_usec) * 1e-6;
+}
+
 template <class Sys>
 static void run_one(Sys& sys, StatKeeper& keep) {
     guard_reset();
     vhist::Options opt;  // closure
+    long cap = vh::args().opt_int("maxstates", -1);  // debugging aid only
+    if (cap > 0) opt.max_states = (size_t)cap;
+    double t0 = child_cpu_seconds();
     vhist::run_config(sys, opt);
+    vh::note(vh::fmt("%s: %.1fs cpu (shard %d)", sys.name().c_str(), child_cpu_seconds() - t0, vh::args().shard));
     keep.harvest();
 }
 
@@ -594,8 +639,10 @@ int main(int argc, char** argv) {
         vh::sample(vh::fmt("%zu configurations (element type x M0 x Mb), e.g. M0=5: Mb in {5,6,3,8}", cs.size()));
     }
     StatKeeper keep;
+    std::string only = vh::args().opt("only");  // debugging aid: only=Tracked/M2/b4
     for (size_t i = 0; i < cs.size(); ++i) {
         if (shard_of[i] != sh) continue;
+        if (!only.empty() && only != vh::fmt("%s/M%zu/b%zu", cs[i].tracked ? "Tracked" : "int", cs[i].M0, cs[i].Mb)) continue;
         dispatch(cs[i], [&](auto& s) { run_one(s, keep); }, [&](auto& s) { run_one(s, keep); });
         keep.sum["configurations"] += 1;
     }
